@@ -29,15 +29,14 @@ let sets_verdict (m : model) (impl : [`Err of int list | `Ok of int list list]) 
       if SetsSpec.set_rules t vals reach <> [] then "ok" else begin
         let rules = SetsSpec.spec_rules t vals reach in
         let bad = ref "ok" in
-        SL.iteri (fun i s -> match s with
-          | TSym (op, sym) ->
-            (match SetsSpec.plain_table t rules op with
-             | None -> bad := "bad:oracle-table-did-not-stabilise"
-             | Some tab ->
-               let w = SL.map int_of_z (SetsSpec.sym_val t tab sym) in
-               let w = if (int_of_z op >= 3) then SL.map int_of_z (SetsSpec.tget tab sym) else w in
-               if SL.sort compare w <> SL.nth got i then bad := Printf.sprintf "bad:set-%d-differs-from-proved-table" i)
-          | _ -> ()) m.m_sets;
+        (match SetsSpec.all_tables t rules with
+         | None -> bad := "bad:oracle-table-did-not-stabilise"
+         | Some tb ->
+           SL.iteri (fun i s ->
+             if SetsSpec.closed_tset s && !bad = "ok" then begin
+               let w = SL.map int_of_z (SetsSpec.eval_set t tb s) in
+               if w <> SL.nth got i then bad := Printf.sprintf "bad:set-%d-differs-from-proved-evaluation" i
+             end) m.m_sets);
         !bad
       end
     end
